@@ -29,4 +29,6 @@ def run(P, R, L):
     from . import blind
     R.clause("ORD-23", "a completely read log fragment is counted in the reader's cursor and block offset before it is parsed: a fragment that fails its checksum costs that record, not the reader's alignment")
     R.once(blind.ord23_reader_position_follows_the_file, P, R, L)
+    R.clause("GRD-6 (source)", "ErrorKind::UnexpectedEof - which read_record turns into a clean end of the log - is constructed only behind a short read")
+    R.once(blind.grd6b_eof_only_from_a_short_read, P, R, L)
     R.not_decided += ["block-boundary arithmetic beyond the guards above: fragment sizes, trailer padding width, offset bookkeeping after each emit (value level)"]
